@@ -5,6 +5,8 @@ package vstub
 // assembly / unsafe); being ordinary Go they handle symbolic bytes by forking.
 // `go test` differential-tests them against the real library (strs_test in setup).
 
+import "strings"
+
 func StringsIndex(s, sep string) int {
 	n := len(sep)
 	if n == 0 {
@@ -132,3 +134,34 @@ func StringsCompare(a, b string) int {
 func BytesCompare(a, b []byte) int { return StringsCompare(string(a), string(b)) }
 
 func BytesEqual(a, b []byte) bool { return string(a) == string(b) }
+
+// strings.Builder stand-in (its String() uses unsafe.String/SliceData): the
+// builder pointer is an identity, the bytes live in a side table.
+var builders = map[*strings.Builder][]byte{}
+
+func BuilderWriteString(b *strings.Builder, s string) (int, error) {
+	builders[b] = append(builders[b], s...)
+	return len(s), nil
+}
+func BuilderWriteByte(b *strings.Builder, c byte) error {
+	builders[b] = append(builders[b], c)
+	return nil
+}
+func BuilderWrite(b *strings.Builder, p []byte) (int, error) {
+	builders[b] = append(builders[b], p...)
+	return len(p), nil
+}
+func BuilderWriteRune(b *strings.Builder, r rune) (int, error) {
+	if r < 0x80 {
+		builders[b] = append(builders[b], byte(r))
+		return 1, nil
+	}
+	s := string(r)
+	builders[b] = append(builders[b], s...)
+	return len(s), nil
+}
+func BuilderString(b *strings.Builder) string { return string(builders[b]) }
+func BuilderLen(b *strings.Builder) int       { return len(builders[b]) }
+func BuilderCap(b *strings.Builder) int       { return cap(builders[b]) }
+func BuilderGrow(b *strings.Builder, n int)   {}
+func BuilderReset(b *strings.Builder)         { delete(builders, b) }
